@@ -19,7 +19,7 @@ LEVEL = {
     "C10": "Deductive proof (Verus), for every string and every well-formed sorted table: no lookup panics, public_suffix computes the publicsuffix.org rule walk over the table's trie (normal / wildcard / exception rules, fallback *), the binary search finds a label iff a sibling has it, results are label-aligned suffixes, eTLD+1 has exactly one more label, empty labels are rejected; well-formedness and sortedness of the shipped table are established by a verified checker compiled and run on the real constants. Partial: that the table encodes exactly the rules of public_suffix_list.dat is not covered. The agreement of the shipped table with the rule list of the shipped public_suffix_list.dat is decided by a verified checker (check_rules / count_rule_ends, proved for every table and list, compiled and run on this tree) and cross-checked by a bounded enumeration over the list's rules.",
     "C11": "Deductive proof (Verus): is_passkey_discoverable equals the capability table, get_info reports rk truthfully, make_credential stores the user handle exactly when discoverable and refuses rk on a non-discoverable-only store, get_assertion returns a user handle exactly when the credential stores one.",
     "C12": "Verus proof of the real constructor / setters (AT / ED set exactly with their section, 65535 limit), of the real encoder (to_vec / into_iter produce exactly the layout of the property, AT or-ed in when the section is present), of the real decoder (37-byte guard, reserved bits, header bytes, big-endian counter, section presence iff flag, truncated / missing section rejected, well-formed input accepted) and of their composition (decoding the encoding returns the same hash, flags, counter, aaguid, credential id, key and extensions); complete Kani harness (all u8) for flag validity. All relative to trusted models of the iterator chain (rule R23), Cursor / Read and a deterministic ciborium / coset with two round-trip axioms; what CBOR those libraries emit is not covered.",
-    "C13": "Deductive proof (Verus) of the six CTAP2 messages on rustc's expansion of serde_workaround! (produced from the working tree on every run): Serialize side -- the map announced has as many entries as are written, the keys are the integers the CTAP specification assigns, ascending, an absent optional member is omitted; Deserialize side -- an integer key names the member with that number, other numbers in 0..255 and text that is no member name are skipped, a result is Ok only without duplicates and with every required member, absent optional members take their defaults (Options: up true, rk / uv false, proved on the real Default impl), and a sound input of that shape is accepted; the round trip of each message as a lemma over the two contracts. All relative to a trusted model of serde's data model; the encodings of member values and the CBOR byte level are assumed. Status bytes: complete loop-free Kani harnesses over all 256 bytes and a Verus proof of the client's status mapping.",
+    "C13": "Deductive proof (Verus) of the six CTAP2 messages on rustc's expansion of serde_workaround! (produced from the working tree on every run): Serialize side -- the map announced has as many entries as are written, the keys are the integers the CTAP specification assigns, ascending, an absent optional member is omitted; Deserialize side -- an integer key names the member with that number, other numbers in 0..255 and text that is no member name are skipped, a result is Ok only without duplicates and with every required member, absent optional members take their defaults (Options: up true, rk / uv false, proved on the real Default impl), and a sound input of that shape is accepted; the round trip of each message as a lemma over the two contracts. All relative to a trusted model of serde's data model; the encodings of member values and the CBOR byte level are assumed (a bounded sweep of sample messages through the real crates and ciborium runs with every check and is listed under bounded_checks, never counted as proved). Status bytes: complete loop-free Kani harnesses over all 256 bytes and a Verus proof of the client's status mapping.",
     "C15": "Deductive proof (Verus) of panic-freedom (index / slice / overflow / unwrap / unreachable) of the hand-written decoders of untrusted input: CTAPHID receiver for any packet length and sequence, U2F raw request decoder, public-suffix lookup, the authenticator-data decoder's own slicing and allocation (over reader models), sequence-visitor pre-allocation and termination (an accepted list element must have consumed input), the COSE public-key converter. Other decoders (CBOR, JSON, coset's own decoding, nom fingerprint parser) are outside both verifiers' reach and are listed as not covered.",
     "C16": "Deductive proof (Verus): header layouts, size check, the receiver's step relation for every 64-byte packet, and the reassembly and interleaving theorems for all payloads 0..7609 and all schedules (lemmas over handle_packet's own postcondition). The sender (to_packets, send) is proved to write exactly the packet list those theorems are stated over, for every accepted payload, relative to trusted models of the iterator adapters / for loop (rules R23-R26) and of the byte sink; bounded Kani harnesses check the same on the compiled crate for 9 lengths.",
     "C17": "Deductive proof (Verus) that every well-formed extended-length register / authenticate / version frame parses to that request, field by field. The three response encoders are proved to produce exactly the layouts of the property (unit enc, over rule R23's byte-chain model of into_iter / chain / collect); bounded Kani harnesses check the same layouts on the compiled crate. The real U2fApi::register / authenticate bodies are proved to sign exactly the byte strings of the property with the fresh / stored key and to store / look up the credential for (application, key handle) (unit cer). Partial: that an ECDSA signature verifies is p256 (assumed; checked concretely by the c17 replay sweep only when a clause fails).",
